@@ -78,7 +78,33 @@ func checkDCT(px *lj.BlockU8, st *dctStats) (fs []finding, coefs lj.BlockI16, ba
 		st.maxErr = worst
 	}
 	if worst > 1 {
-		fs = append(fs, finding{"dct:inverse-of-forward-off-by-more-than-one", fmt.Sprintf("pixel %d: original %d, after ForwardDCT then InverseDCT %d", at, px[at], back[at])})
+		// The signature carries the size of the error and, for a block that is flat except for one
+		// pixel, how far that pixel is from the background: a transform that is wrong in a different
+		// way gives a different signature (see known_findings.json for the inherent cases).
+		shape := "general-block"
+		counts := map[uint8]int{}
+		for _, v := range px {
+			counts[v]++
+		}
+		if len(counts) == 2 {
+			var bgv, one uint8
+			single := false
+			for v, n := range counts {
+				if n == 1 {
+					one, single = v, true
+				} else {
+					bgv = v
+				}
+			}
+			if single {
+				d := int(one) - int(bgv)
+				if d < 0 {
+					d = -d
+				}
+				shape = fmt.Sprintf("one-pixel-differs-by-%d-from-a-flat-block", d)
+			}
+		}
+		fs = append(fs, finding{fmt.Sprintf("dct:inverse-of-forward-off-by-more-than-one:error=%d:%s", worst, shape), fmt.Sprintf("pixel %d: original %d, after ForwardDCT then InverseDCT %d", at, px[at], back[at])})
 	}
 	return fs, coefs, back
 }
